@@ -204,9 +204,9 @@ for _p in ("C04", "C06", "C07", "C08", "C09", "C15", "C18"):
 
 PROPS["C19"] = dict(
     pkg="./props/c19_leaks",
-    tests=[REGRESS(), T("TestLeaks", (8, 150), (16, 3000)), T("TestKnownFindingD12", (1, 0), (1, 0))],
+    tests=[REGRESS(), T("TestLeaks", (8, 150), (16, 3000)), T("TestKnownFindingD12", (1, 0), (1, 0)), T("TestHedgedRetryEvents", (2, 400), (4, 6000), pkg="./props/c16_events", env={"VERIF_LEAKCHECK": "1"})],
     prefer_json_replay=True,
-    rule="rapid-generated scenarios, each repeated 5..40 times in a row: core executions through stacks of {retry with and without backoff delays, firing and never-firing timeouts, real hedging with default and custom cancel conditions, 1 h hedge, fallback, 1 h bulkhead and limiter waits} run sync / async / async without ever reading the result, with functions that last 0..600 us or until cancelled, ended by success, failure, timeout, context cancellation or ExecutionResult.Cancel; HTTP calls through a private transport (retried statuses incl. outages where every attempt gets the same 429/500/503, hedged losers with default and custom cancel conditions whose answers arrive together (server-side barrier), retries rejected by an inner breaker or rate limiter (also: 5xx, rejected, breaker half-opened again, 200), inner transports whose Body.Close reports an error or which hand out responses without a Body, request bodies whose rewind fails, merged request/executor contexts, bodies read or not); gRPC interceptor calls with merged contexts; composition scenarios of the C01 generator; after everything returned and idle connections were closed, and while the caller's contexts are still alive, a goroutine dump is polled for up to 30 s: no goroutine may keep a frame of the module or of an HTTP client connection, and the goroutine count may not have grown; non-trivial = the scenario started a policy goroutine or timer (hedge, timeout, async runner, delay, merged context, retried response); distinct = the scenario",
+    rule="(TestHedgedRetryEvents, from the C16 harness, with a goroutine dump at the end: after all hedged-retry executions returned no goroutine may remain inside the retry or hedge policy) rapid-generated scenarios, each repeated 5..40 times in a row: core executions through stacks of {retry with and without backoff delays, firing and never-firing timeouts, real hedging with default and custom cancel conditions, 1 h hedge, fallback, 1 h bulkhead and limiter waits} run sync / async / async without ever reading the result, with functions that last 0..600 us or until cancelled, ended by success, failure, timeout, context cancellation or ExecutionResult.Cancel; HTTP calls through a private transport (retried statuses incl. outages where every attempt gets the same 429/500/503, hedged losers with default and custom cancel conditions whose answers arrive together (server-side barrier), retries rejected by an inner breaker or rate limiter (also: 5xx, rejected, breaker half-opened again, 200), inner transports whose Body.Close reports an error or which hand out responses without a Body, request bodies whose rewind fails, merged request/executor contexts, bodies read or not); gRPC interceptor calls with merged contexts; composition scenarios of the C01 generator; after everything returned and idle connections were closed, and while the caller's contexts are still alive, a goroutine dump is polled for up to 30 s: no goroutine may keep a frame of the module or of an HTTP client connection, and the goroutine count may not have grown; non-trivial = the scenario started a policy goroutine or timer (hedge, timeout, async runner, delay, merged context, retried response); distinct = the scenario",
     assumptions=["a timer that is left armed but whose firing has no observable effect is invisible to this oracle",
                  "the caller owns (and closes) the response it is handed, including the one carried by ExceededError",
                  "scenarios run one after the other within a process, so leftovers are attributable",
